@@ -572,6 +572,8 @@ def run(ctx):
                                                              weights=[float(x) for x in mo.get("weights", [])])),
                               seam="HvsrSpatial.spatial_weights/bounded_voronoi")
     ctx.supporting["max_abs_weight_difference"] = ctx.maxdw
+    reverse_order_probe(ctx, "c14", "impl_layout", [v[1] for g in groups for v in g[2]], "weights-are-nearest-sensor-area-fractions",
+                        "HvsrSpatial in another order / fresh interpreter", sample=40)
 
     # ---------------- Monte-Carlo
     cases = []
